@@ -106,6 +106,7 @@ SUITES = {
     'irns': {'module': 'specs.irns', 'spec_class': 'IRNSSpec', 'functions': 'specs.irns', 'files': {}, 'obligations': 'posts'},
     'vcomposer': {'module': 'specs.vcomposer', 'spec_class': 'VComposerSpec', 'functions': 'specs.vcomposer', 'files': {}, 'obligations': 'posts'},
     'ecomposer': {'module': 'specs.ecomposer', 'spec_class': 'EComposerSpec', 'functions': 'specs.ecomposer', 'files': {}, 'obligations': 'posts'},
+    'vparser': {'module': 'specs.vparser', 'spec_class': 'VParserSpec', 'functions': 'specs.vparser', 'files': {}, 'obligations': 'posts'},
     'href': {'module': 'specs.href', 'spec_class': 'HRefSpec', 'functions': 'specs.href', 'files': {}, 'obligations': 'posts'},
     'compare': {'module': 'specs.compare', 'spec_class': 'CompareSpec', 'functions': 'specs.compare',
                 'files': {'Comparer': 'spydrnet/compare/compare_netlists.py'}, 'obligations': 'posts'},
